@@ -1059,9 +1059,20 @@ func (w *Worker) andV(a, b Value) Value {
 
 func (w *Worker) strEq(a, b Str) Value {
 	if a.opaque || b.opaque {
-		// only decidable cases
+		// only decidable cases: length or known-prefix mismatch
 		if !a.opaque && len(a.b) < b.minLen || !b.opaque && len(b.b) < a.minLen {
 			return false
+		}
+		n := len(a.b)
+		if len(b.b) < n {
+			n = len(b.b)
+		}
+		for i := 0; i < n; i++ {
+			ai, aok := a.At(i).(int64)
+			bi, bok := b.At(i).(int64)
+			if aok && bok && ai != bi {
+				return false
+			}
 		}
 		unsupported("comparison of opaque string")
 	}
